@@ -9,8 +9,12 @@ frame=False: the spec's matrix is the ambient 3x3 tensor as it stands (for dim <
 "share": "data"   - one data / parameter dictionary (and so one tensor, bc, bc_values) for the whole sequence,
          "tensor" - a fresh data dictionary per step but the same SecondOrderTensor / bc / bc_values objects,
          "none"   - fresh copies per step.
-"tangential": data["is_tangential"] = True; only honoured for dim < 3 with an isotropic tensor (k I has the same
-         components in every frame, so the parameter is unambiguous).
+"tangential": data["is_tangential"] = True (dim < 3 only). The tensor then holds the permeability in the grid's own
+         tangent frame in its leading dim x dim block (RT0 / MVEM read k.values[0:dim, 0:dim] and nothing else):
+         1-d: kxx = kt, kyy = kt*other[0], kzz = kt*other[1];  2-d: kxx = kyy = kt (isotropic in the plane: which
+         in-plane frame is meant is not defined by the library), kzz = kt*other[1].  The other entries differ from
+         kt by factors 0.01..100 and must not influence the result.  "K" / "frame" are ignored in that case.
+         (specs without "tang": the old class, isotropic "K" only.)
 If a step modifies the caller's tensor, bc or bc_values (shared modes), that is not reported by itself: an RT0 and
 an MVEM step that use the same objects are appended, and the oracles decide against the data as supplied."""
 from __future__ import annotations
@@ -33,7 +37,9 @@ RULE = (
     "arbitrary ambient 3x3 tensor; a linear pressure p = c + a.x. Dirichlet data p(x_f) on every boundary face. For "
     "a sequence of 2-3 discretisations with pp.RT0 and pp.MVEM (both orders, RT0 twice, ...) that share one data / "
     "parameter dictionary, or one SecondOrderTensor / bc / bc_values with fresh dictionaries, or nothing; for dim < 3 "
-    "with isotropic K optionally is_tangential = True. Each step: discretize, assemble_matrix_rhs, sparse direct solve; "
+    "optionally is_tangential = True with the permeability given in the grid's tangent frame (1-d: kxx = kt and kyy, kzz "
+    "= kt times factors 0.01..100; 2-d: kxx = kyy = kt, kzz = kt times such a factor; grids embedded arbitrarily; exact "
+    "flux -(kt P a).n_f, so the entries outside the leading dim x dim block must not matter). Each step: discretize, assemble_matrix_rhs, sparse direct solve; "
     "if a step leaves the shared tensor / bc_values / bc flags modified, an RT0 and an MVEM step using those objects are "
     "appended (a modification is judged by its consequences, not by itself); oracle for every step, always against the "
     "data as the caller supplied them: extract_flux = "
@@ -59,12 +65,18 @@ ASSUMPTIONS = [
     "the linear system is solved with scipy's sparse direct solver, as in the repository's tests",
     "discretize / assemble_matrix_rhs do not modify the parameters they are given (no docstring documents in-place "
     "modification; rt0 / mvem copy the tensor before rotating it)",
-    "is_tangential = True is only generated with an isotropic tensor on grids of dimension < 3 (frame-independent)",
+    "is_tangential = True (dim < 3): the tensor's leading dim x dim block holds the permeability in the grid's tangent "
+    "frame - this is what RT0 and MVEM read (k.values[0:dim, 0:dim]) and what the docstring says ('rotated to the fracture "
+    "plane'); no caller in the repository sets the option. 1-d: the frame is unique up to sign, kxx is the along-line "
+    "permeability. 2-d: the library does not define which in-plane frame is meant (it is whatever map_grid's rotation "
+    "produces), so only tensors that are isotropic in the plane are generated, with a different out-of-plane entry",
 ]
-REQUIRED = {"dim1": 0.04, "dim2": 0.2, "dim3": 0.15, "embedded": 0.12, "perturbed": 0.15, "affine": 0.03, "K-full": 0.1,
-            "K-iso": 0.1, "K-diag": 0.08, "K-ambient": 0.2, "K-frame": 0.2, "share-data": 0.1, "share-tensor": 0.2,
+REQUIRED = {"dim1": 0.04, "dim2": 0.2, "dim3": 0.15, "embedded": 0.12, "perturbed": 0.15, "affine": 0.03, "K-full": 0.08,
+            "K-iso": 0.08, "K-diag": 0.06, "K-ambient": 0.15, "K-frame": 0.15, "share-data": 0.1, "share-tensor": 0.2,
             "share-none": 0.1, "shared-first-rt0": 0.2, "shared-first-mvem": 0.1, "shared-3d": 0.1,
-            "shared-3d-rt0-first": 0.05, "is-tangential": 0.03, "shared-is-tangential": 0.02}
+            "shared-3d-rt0-first": 0.05, "is-tangential": 0.08, "shared-is-tangential": 0.04,
+            "tangential-anisotropic-1d": 0.03, "tangential-out-of-plane-differs": 0.05, "tangential-mvem": 0.06,
+            "tangential-rt0": 0.06}
 
 KW = "flow"
 RTOL = 1e-9
@@ -88,7 +100,11 @@ def _spec(draw, tier):
                                 ["mvem", "mvem", "rt0"], ["rt0", "mvem", "rt0"]]))
     return {"grid": grid, "K": draw(fv.spd_spec()), "frame": draw(st.booleans()), "field": draw(fv.field_spec()),
             "seq": seq, "share": draw(st.sampled_from(["data", "tensor", "tensor", "none"])),
-            "tangential": draw(st.integers(0, 2)) == 0}
+            "tangential": draw(st.integers(0, 2 if fam != "seg" else 1)) == 0,
+            # tangential tensor (used when "tangential" and dim < 3): value in the tangent frame, and the factors by
+            # which the remaining diagonal entries differ from it (they must not influence the result)
+            "tang": {"kt": draw(st.floats(0.1, 10.0, allow_nan=False, width=64)),
+                     "other": [draw(st.sampled_from([0.01, 0.05, 0.3, 3.0, 20.0, 100.0])) for _ in range(2)]}}
 
 
 def strategy(tier):
@@ -111,7 +127,18 @@ def check(spec):
         raise HarnessError(f"generated grid too large for the dense eigenvalue oracle: {g.num_faces} faces")
     meta = grid_meta(gs)
     R, _ = rigid_of(gs)
-    K, Km, _ = fv.build_tensor(spec["K"], g, frame=R if spec["frame"] else None)
+    tang = spec.get("tang") if (spec.get("tangential") and g.dim < 3) else None
+    if tang is not None:
+        # permeability given in the tangent frame: only the leading dim x dim block is meaningful
+        kt, o = float(tang["kt"]), [float(x) for x in tang["other"]]
+        ones = np.ones(g.num_cells)
+        if g.dim == 1:
+            K = pp.SecondOrderTensor(kxx=kt * ones, kyy=kt * o[0] * ones, kzz=kt * o[1] * ones)
+        else:
+            K = pp.SecondOrderTensor(kxx=kt * ones, kyy=kt * ones, kzz=kt * o[1] * ones)
+        Km = kt * np.eye(3)  # acts as kt on the tangent space: exact flux -(kt P a).n_f
+    else:
+        K, Km, _ = fv.build_tensor(spec["K"], g, frame=R if spec["frame"] else None)
     fs = spec["field"]
     a = np.asarray(fs["a"], dtype=float)
 
@@ -136,7 +163,7 @@ def check(spec):
 
     seq = spec.get("seq") or ["rt0", "mvem"]
     share = spec.get("share", "none")
-    tangential = bool(spec.get("tangential")) and g.dim < 3 and spec["K"]["kind"] == "iso"
+    tangential = tang is not None or (bool(spec.get("tangential")) and g.dim < 3 and spec["K"]["kind"] == "iso")
     K_ref = K.values.copy()
     bcv_ref = bc_val.copy()
     dir_ref, neu_ref = bc.is_dir.copy(), bc.is_neu.copy()
@@ -161,6 +188,7 @@ def check(spec):
                 and np.array_equal(bc.is_dir, dir_ref) and np.array_equal(bc.is_neu, neu_ref))
 
     data = new_data() if share == "data" else None
+    fluxes = {}
     steps = list(seq)
     mutated = False
     step = -1
@@ -182,6 +210,7 @@ def check(spec):
         require(bool(np.all(np.isfinite(up))), name + "-solution-finite", "non-finite solution of the mixed system")
         q = solver.extract_flux(g, up, data)
         p = solver.extract_pressure(g, up, data)
+        fluxes.setdefault(name, q)
         where = f"{name} (step {step} of {'>'.join(steps)}, share={share}{', inputs modified by an earlier step' if mutated else ''})"
         require_close(q, q_ex, name + "-flux", rtol=RTOL, scale=q_scale, what=f"{where}: extract_flux vs -(K grad p).n_f")
         require_close(p, p_ex, name + "-pressure", rtol=RTOL, scale=max(pmax, 1e-300),
@@ -197,6 +226,10 @@ def check(spec):
         require(ev[0] > 1e-10 * ev[-1], name + "-mass-positive-definite",
                 f"{where}: eigenvalues of the mass matrix in [{ev[0]:.3e}, {ev[-1]:.3e}]")
 
+    if "rt0" in fluxes and "mvem" in fluxes:  # implied by the two comparisons with the exact flux; stated for the record
+        require_close(fluxes["rt0"], fluxes["mvem"], "rt0-mvem-flux-agree", rtol=2 * RTOL, scale=q_scale,
+                      what="RT0 and MVEM face fluxes for the same linear pressure")
+
     labels = list(meta["labels"]) + ["K-" + spec["K"]["kind"], "K-frame" if spec["frame"] else "K-ambient"]
     labels += ["share-" + share, "seq-" + ">".join(seq)]
     if share != "none":
@@ -205,6 +238,13 @@ def check(spec):
             labels.append("shared-3d")
             if seq[0] == "rt0":
                 labels.append("shared-3d-rt0-first")
+    if tang is not None:
+        labels = [l for l in labels if not l.startswith("K-")] + ["K-tangential"]
+        labels.append("tangential-anisotropic-1d" if g.dim == 1 else "tangential-out-of-plane-differs")
+        if "mvem" in seq:
+            labels.append("tangential-mvem")
+        if "rt0" in seq:
+            labels.append("tangential-rt0")
     if tangential:
         labels.append("is-tangential")
         if share != "none":
